@@ -5,7 +5,7 @@ gtree := ["l", [code units], ro] | ["n", sym, ro, [gtree…], [gtree… (sources
 spec  := {"gens": [[sym, [param…]]…]}
 log   := [[sym, [[units]…], [units]]…]
 
-  {"op":"inv","spec":S,"log":L,"path":[…],"tree":T} → {"ok":bool,"bad":[[steps…], verdict]|null}
+  {"op":"inv","spec":S,"log":L,"path":[…],"tree":T} → {"ok":bool,"bad":[[steps…], verdict]|null,"srcok":bool}
         steps: 2*i = child i, 2*i+1 = source i; verdict 1 = text not a logged return value for the recorded
         arguments, 2 = generated children writable, 3 = argument missing
   {"op":"generate","spec":S,"sym":s,"srcs":[T…],"value":[units],"parsed":[T…]|null}
@@ -105,7 +105,8 @@ def handle (j : Json) : Except String Json := do
     let bad := match firstBad S log path t with
       | none => Json.null
       | some (p, v) => Json.arr #[jNats p, Json.num (JsonNumber.fromNat v)]
-    return Json.mkObj [("ok", Json.bool (genInvB S log path t)), ("bad", bad)]
+    return Json.mkObj [("ok", Json.bool (genInvB S log path t)), ("bad", bad),
+      ("srcok", Json.bool (srcOKB S path t))]
   | "generate" | "fuzzgen" | "regen" =>
     let S ← specOf (← j.getObjVal? "spec")
     let s ← j.getObjValAs? String "sym"
